@@ -1,7 +1,7 @@
 (* C06 - queue directories on disk and the restart: the chunks spilled by the pipeline of a key tuple are
    found again by a pipeline of the same key tuple (for the ids the on-disk format can represent). *)
 From SV Require Import Model.Common Model.Md5 Model.Routing Proofs.CommonFacts Proofs.MergedKeyProofs
-  Proofs.RoutingProofs Proofs.QueueProofs Proofs.TemplateProofs.
+  Proofs.RoutingProofs Proofs.QueueProofs Proofs.TagTemplateProofs.
 From Coq Require Import Lia ZifyBool ZifyN ZifyNat.
 Ltac Zify.zify_post_hook ::= Z.div_mod_to_equations.
 Open Scope N_scope.
